@@ -29,6 +29,7 @@ def main():
     emit_lean.emit_tables(ir)
     emit_lean.emit_witness(ir)
     emit_lean.emit_comp(ir)
+    emit_lean.emit_wf(ir)
     # C16: the same translation applied to what tasks/xonsh.gram generates NOW (a scratch module, regenerated when the
     # grammar, the generator or pegen change); the certificate regenerated_ir_equals_shipped compares the two in the kernel
     try:
